@@ -162,6 +162,8 @@ def run(ctx):
     # longer loaded keeps rejecting traffic
     from . import rules_C10
     mod = "core::system::rule_manager"
+    from . import rules_C02
+    rules_C02.gateway(ctx, f, cfg)       # qps / avg_rt of the inbound node are window statistics: read only through the window filter
     bodies = rules_C10.manager_bodies(f, "system")
     rules_C10.raw_snapshot(ctx, f, "system", bodies, cfg)
     rules_C10.append_snapshot(ctx, f, "system", bodies, cfg)
